@@ -514,7 +514,7 @@ class Impl:
             f"srel={b(s.distance_mode.is_relative)} tool={b(s.is_tool_active)} coola={b(s.is_coolant_active)} "
             f"spin={s.spin_mode.value} pmode={s.power_mode.value} cool={s.coolant_mode.value} "
             f"power={canon_float(s.tool_power)} feed={canon_float(s.feed_rate)} tnum={s.tool_number} "
-            f"swap={s.tool_swap_mode.value} bed={canon_float(s.target_bed_temperature)} "
+            f"swap={s.tool_swap_mode.value} halt={s.halt_mode.value} bed={canon_float(s.target_bed_temperature)} "
             f"hot={canon_float(s.target_hotend_temperature)} ch={canon_float(s.target_chamber_temperature)} "
             f"erel={b(s.extrusion_mode.value == 'relative')} fmode={self.FMODES.index(s.feed_mode.value)} "
             f"inches={b(s.length_units.value == 'inches')} plane={self.PLANES.index(s.plane.value)} "
